@@ -55,7 +55,7 @@ def base(cell):
     frames = []
     for f in range(6):
         frames.append((x0 * (1 + 0.3 * f) + rng.normal(0, 0.02, x0.shape) + np.array([1.5, 2.0, 2.5])).astype(np.float32))
-    t = md.Trajectory(np.array(frames), f0.topology, time=np.arange(6) * 2.0 + 1.0)
+    t = md.Trajectory(np.array(frames), f0.topology, time=np.arange(6) * 2.0 + 1.1)   # (x.1: not a float32 value)
     if cell:
         t.unitcell_lengths = np.array([[6.0 + 0.1 * f, 7.0, 8.0] for f in range(6)], dtype=np.float32)
         t.unitcell_angles = np.array([[90.0, 90.0, 90.0]] * 6, dtype=np.float32)
@@ -480,7 +480,19 @@ def run_case(case):
                 src.t.xyz = newx
                 src.xyz = newx.copy()
             elif name == "set_time":
-                nt = src.time + 10.0
+                # times of several kinds, as trajectories from different sources carry them: float64, float32 with fractional
+                # values, whole numbers (int64, what a trajectory built without time= has), and float64 values that float32
+                # cannot hold; joined pieces may mix them
+                k_ = r % 4
+                if k_ == 0:
+                    nt = src.time + 10.0
+                elif k_ == 1:
+                    nt = (np.asarray(src.time, dtype=np.float64) * 0.5 + 0.25).astype(np.float32)
+                elif k_ == 2:
+                    nt = np.arange(len(src.time), dtype=np.int64) * 3 + (r % 7)
+                else:
+                    nt = 1.0e6 + 0.002 * np.arange(len(src.time), dtype=np.float64) + (r % 5)
+                labels.append("set_time:" + str(nt.dtype))
                 src.t.time = nt
                 src.time = nt.copy()
             elif name == "set_cell":
